@@ -107,4 +107,51 @@ theorem roundNE_scale' {f : Fmt} (hf : WF f) {k : Nat} (hk : 0 < k) (num : Nat) 
     (hd : 0 < den) : roundNE f (k * num) (k * den) = roundNE f num den :=
   roundNE_congr' hf (Nat.mul_pos hk hd) hd (by ac_rfl)
 
+theorem infBits_pos {f : Fmt} (hf : WF f) : 0 < f.infBits := by
+  rw [infBits_eq]; exact Nat.mul_pos (by have := M_ge hf; omega) (Nat.two_pow_pos _)
+
+/-- (4), Nat form: overflow iff at or above the midpoint between the largest finite value and
+`2^(emax+1)`. -/
+theorem roundNE_eq_inf_iff {f : Fmt} (hf : WF f) (num : Nat) {den : Nat} (hd : 0 < den) :
+    roundNE f num den = f.infBits ↔
+      den * (ival f (f.infBits - 1) + ival f f.infBits) ≤ 2 * (num * 2 ^ (L f)) := by
+  have c := inCell_roundNE hf num (Nat.ne_of_gt hd)
+  have hpos := infBits_pos hf
+  have hev := infBits_even hf
+  constructor
+  · intro h; rw [h] at c; exact c.lower (by omega)
+  · intro h
+    apply Classical.byContradiction; intro hne
+    have hlt : roundNE f num den < f.infBits := Nat.lt_of_le_of_ne c.le_inf hne
+    generalize roundNE f num den = r at *
+    have up := c.upper hlt
+    have m1 : ival f r ≤ ival f (f.infBits - 1) := ival_mono f (by omega)
+    have m2 : ival f (r + 1) ≤ ival f f.infBits := ival_mono f (by omega)
+    have k := Nat.mul_le_mul_left den (Nat.add_le_add m1 m2)
+    have e1 : den * (ival f r + ival f (r + 1)) = den * (ival f (f.infBits - 1) + ival f f.infBits) := by
+      omega
+    have e2 := Nat.eq_of_mul_eq_mul_left hd e1
+    have t := c.upper_tie hlt (by omega)
+    have : r = f.infBits - 1 := by
+      apply Classical.byContradiction; intro hne'
+      have := ival_strictMono f (show r < f.infBits - 1 by omega)
+      omega
+    omega
+
+theorem ival_infBits {f : Fmt} (hf : WF f) :
+    ival f f.infBits = 2 * 2 ^ (f.p - 1) * 2 ^ (f.maxExpField - 2) ∧
+    ival f (f.infBits - 1) + 2 ^ (f.maxExpField - 2) = 2 * 2 ^ (f.p - 1) * 2 ^ (f.maxExpField - 2) := by
+  have hM := M_ge hf
+  have hT := Nat.two_pow_pos (f.p - 1)
+  have e1 : f.infBits = (f.maxExpField - 2) * 2 ^ (f.p - 1) + 2 * 2 ^ (f.p - 1) := by
+    rw [infBits_eq, ← Nat.add_mul]; congr 1; omega
+  have e2 : f.infBits - 1 = (f.maxExpField - 2) * 2 ^ (f.p - 1) + (2 * 2 ^ (f.p - 1) - 1) := by
+    rw [e1]; omega
+  constructor
+  · rw [e1, ival_kq f _ _ (by omega) (by omega)]
+  · rw [e2, ival_kq f _ _ (by omega) (by omega), Nat.sub_mul]
+    have : 1 * 2 ^ (f.maxExpField - 2) ≤ 2 * 2 ^ (f.p - 1) * 2 ^ (f.maxExpField - 2) :=
+      Nat.mul_le_mul_right _ (by omega)
+    omega
+
 end LexVerif.Proof.RoundNE
